@@ -520,6 +520,40 @@ func tryReplayMethod(rf *ReplayFile, r *SolveResult, eng *Engine) bool {
 	} else {
 		call = fmt.Sprintf("%s(%s)", fn.Name(), strings.Join(args, ", "))
 	}
+	// results of basic type are compared with the model's prediction as well
+	nres := fn.Signature.Results().Len()
+	var wantRes []string
+	if nres > 0 {
+		var names []string
+		for i := 0; i < nres; i++ {
+			names = append(names, fmt.Sprintf("hvr%d", i))
+		}
+		call = strings.Join(names, ", ") + " := " + call + "\n\t\tobs[\"results\"] = []string{"
+		for i := 0; i < nres; i++ {
+			rt := fn.Signature.Results().At(i).Type()
+			if bn := basicName(rt); bn != "" && bn != "string" {
+				call += fmt.Sprintf("hvShow(reflect.ValueOf(hvr%d)), ", i)
+				want := "?"
+				if cv, ok := r2Convert(bn, model[fmt.Sprintf("result %d", i)]); ok {
+					switch cv.Kind {
+					case "int":
+						want = fmt.Sprint(cv.N)
+					case "uint":
+						want = fmt.Sprint(cv.U)
+					case "bool":
+						want = fmt.Sprint(cv.B)
+					case "float":
+						want = fmt.Sprint(cv.FB)
+					}
+				}
+				wantRes = append(wantRes, want)
+			} else {
+				call += fmt.Sprintf("func() string { _ = hvr%d; return \"?\" }(), ", i)
+				wantRes = append(wantRes, "?")
+			}
+		}
+		call += "}"
+	}
 	specJSON, _ := json.Marshal(spec)
 	if strings.Contains(string(specJSON), "`") {
 		return false
@@ -586,6 +620,21 @@ func TestZZHvReplay(t *testing.T) {
 		sends[name] = hvDrain(ch)
 	}
 	obs["sends"] = sends
+	sendsAgree := true
+	names := map[string]bool{}
+	for n := range spec.Sends {
+		names[n] = true
+	}
+	for n := range sends {
+		names[n] = true
+	}
+	for n := range names {
+		a, b := spec.Sends[n], sends[n]
+		if !(len(a) == 0 && len(b) == 0) && fmt.Sprint(a) != fmt.Sprint(b) {
+			sendsAgree = false
+		}
+	}
+	obs["sends_agree"] = sendsAgree
 	var wr []string
 	okAll := true
 	func() {
@@ -643,6 +692,7 @@ func TestZZHvReplay(t *testing.T) {
 		Returned    bool               `json:"returned"`
 		Sends       map[string][][]int `json:"sends"`
 		WritesAgree bool               `json:"writes_agree"`
+		Results     []string           `json:"results"`
 		WriteDiffs  []string           `json:"write_diffs"`
 	}
 	found := false
@@ -676,6 +726,12 @@ func TestZZHvReplay(t *testing.T) {
 		if fmt.Sprint(a) != fmt.Sprint(b) && !(len(a) == 0 && len(b) == 0) {
 			sendsAgree = false
 			diffs = append(diffs, fmt.Sprintf("channel %s: predicted %v, real %v", n, a, b))
+		}
+	}
+	for i, w := range wantRes {
+		if w != "?" && i < len(obs.Results) && obs.Results[i] != w {
+			sendsAgree = false
+			diffs = append(diffs, fmt.Sprintf("result %d: predicted %s, real %s", i, w, obs.Results[i]))
 		}
 	}
 	if sendsAgree && obs.WritesAgree {
